@@ -41,6 +41,21 @@ def alphabet():
 
 _ALPHA = None
 
+# characters that are not ASCII letters but are mapped onto ASCII letters by str.lower()/upper()/casefold() or by
+# case-insensitive regular expressions (KELVIN SIGN, LONG S, DOTLESS I, I WITH DOT ABOVE), plus fullwidth letters:
+# tag names, magic words and URL schemes spelled with them look like tokens to some layers and not to others
+CONFUSABLE = {"k": "\u212a", "K": "\u212a", "s": "\u017f", "S": "\u017f", "i": "\u0131", "I": "\u0130",
+              "a": "\uff41", "d": "\uff44", "p": "\uff50", "h": "\uff48", "t": "\uff54", "b": "\uff42"}
+
+
+def confuse(t, rng):
+    idx = [i for i, c in enumerate(t) if c in CONFUSABLE]
+    if not idx:
+        return t
+    for i in rng.sample(idx, min(len(idx), rng.randint(1, 2))):
+        t = t[:i] + CONFUSABLE[t[i]] + t[i + 1:]
+    return t
+
 
 def soup(rng: random.Random, maxlen=60, placeholders=False, exclude=()):
     """Return (text, used_placeholder)."""
@@ -68,6 +83,8 @@ def soup(rng: random.Random, maxlen=60, placeholders=False, exclude=()):
             usedp = True
         else:
             t = rng.choice(["a", "b c", "Xy", "12", "foo bar", "q"])
+        if 0.55 <= r < 0.92 and rng.random() < 0.06:
+            t = confuse(t, rng)
         if exclude and any(x in t for x in exclude):
             continue
         out.append(t)
